@@ -133,3 +133,310 @@ Proof.
     destruct (ty_eqb t' (erase x)); [|reflexivity].
     rewrite fst_bind_s, IHvf. reflexivity.
 Qed.
+
+(** ** the bound *)
+Lemma unmarshal_ts_array_fast_eq vf be x c : valid_slice be (erase x) = true ->
+  unmarshal_ts (S vf) be (EArray x) c = tick (lift (unmarshal_t (S vf) be (EArray x) c)).
+Proof.
+  intros Hvs. rewrite unmarshal_ts_array_eq, unmarshal_t_array_eq, Hvs. f_equal.
+  destruct (u_read_fixed be 4 c) as [r| | | |]; cbn [bind]; [rewrite bind_s_lift_ok|reflexivity..].
+  destruct (check_array_len (fst r)) as [n| | | |]; cbn [bind]; [rewrite bind_s_lift_ok|reflexivity..].
+  destruct (u_align (ealign x) (snd r)) as [c1| | | |]; cbn [bind]; [rewrite bind_s_lift_ok|reflexivity..].
+  destruct (negb _); [reflexivity|]. destruct (_ <? n); [reflexivity|]. destruct (erase x); reflexivity.
+Qed.
+Lemma unmarshal_ts_array_slow_eq vf be x c : valid_slice be (erase x) = false -> unmarshal_ts (S vf) be (EArray x) c =
+  tick (
+  dos c0 <- lift (u_align 4 c);
+  dos h <- lift (u_header be (ealign x) c0);
+  dos vs <- sub_loop_s (fun c => dos c <- lift (u_align (ealign x) c); unmarshal_ts (S vf) be x c) (S (N.to_nat (fst h))) (fst (snd h)) [];
+  lift (Ok (VArray (erase x) vs, snd (snd h)))).
+Proof.
+  intros Hvs. rewrite unmarshal_ts_array_eq, Hvs. unfold u_header. f_equal.
+  destruct (u_align 4 c) as [c0| | | |]; [rewrite !bind_s_lift_ok|reflexivity..].
+  destruct (u_read_fixed be 4 c0) as [r| | | |]; cbn [bind]; [rewrite bind_s_lift_ok|reflexivity..].
+  destruct (check_array_len (fst r)) as [n| | | |]; cbn [bind]; [rewrite bind_s_lift_ok|reflexivity..].
+  destruct (u_align (ealign x) (snd r)) as [c1| | | |]; cbn [bind]; [rewrite bind_s_lift_ok|reflexivity..].
+  destruct (u_sub n c1) as [s| | | |]; cbn [bind]; [rewrite !bind_s_lift_ok|reflexivity..]. reflexivity.
+Qed.
+Lemma unmarshal_ts_dict_eq' vf be k v c : unmarshal_ts (S vf) be (EDict k v) c =
+  tick (
+  dos c0 <- lift (u_align 4 c);
+  dos h <- lift (u_header be 8 c0);
+  dos kvs <- sub_loop_s (fun c => dos c <- lift (u_align 8 c);
+                               dos kr <- tick (lift (u_base be k c));
+                               dos c2 <- lift (u_align (ealign v) (snd kr));
+                               dos vr <- unmarshal_ts (S vf) be v c2;
+                               lift (Ok ((fst kr, fst vr), snd vr)))
+                     (S (N.to_nat (fst h))) (fst (snd h)) [];
+  lift (Ok (VDict k (erase v) kvs, snd (snd h)))).
+Proof.
+  rewrite unmarshal_ts_dict_eq. unfold u_header. f_equal.
+  destruct (u_align 4 c) as [c0| | | |]; [rewrite !bind_s_lift_ok|reflexivity..].
+  destruct (u_read_fixed be 4 c0) as [r| | | |]; cbn [bind]; [rewrite bind_s_lift_ok|reflexivity..].
+  destruct (check_array_len (fst r)) as [n| | | |]; cbn [bind]; [rewrite bind_s_lift_ok|reflexivity..].
+  destruct (u_align 8 (snd r)) as [c1| | | |]; cbn [bind]; [rewrite bind_s_lift_ok|reflexivity..].
+  destruct (u_sub n c1) as [s| | | |]; cbn [bind]; [rewrite !bind_s_lift_ok|reflexivity..]. reflexivity.
+Qed.
+
+Lemma bind_s_ok {A B} (a : A) s (f : A -> counted B) : bind_s (Ok a, s) f = (fst (f a), s + snd (f a)).
+Proof. reflexivity. Qed.
+
+Lemma tweight_pos e : 1 <= tweight e.
+Proof. destruct e; cbn [tweight]; lia. Qed.
+Lemma tweight_in es f : In f es -> tweight f <= fold_right (fun x m => N.max (tweight x) m) 0 es.
+Proof. induction es as [|y es IH]; intros Hin; [destruct Hin|]. cbn [fold_right]. destruct Hin as [->|Hin]; [lia|]. specialize (IH Hin). lia. Qed.
+
+Lemma pgood_mono {A} w w' c (x : counted (A * uctx)) : w <= w' -> uoff c <= len (ubuf c) -> pgood w c x -> pgood w' c x.
+Proof.
+  intros Hw Hc. assert (Hd : exists d, w' = w + d) by (exists (w' - w); lia). destruct Hd as [d ->].
+  unfold pgood. destruct (fst x) as [r| | | |]; auto.
+  - intros (E & Hr & Hs). repeat split; try assumption; try lia.
+    pose proof (N.mul_le_mono_l (uoff c) (uoff (snd r)) d ltac:(lia)). lia.
+  - intros Hs. pose proof (N.mul_le_mono_l (uoff c) (len (ubuf c)) d Hc). lia.
+Qed.
+Lemma sgood_mono w w' off buf x : w <= w' -> off <= len buf -> sgood w off buf x -> sgood w' off buf x.
+Proof.
+  intros Hw Hc. assert (Hd : exists d, w' = w + d) by (exists (w' - w); lia). destruct Hd as [d ->].
+  unfold sgood. destruct (fst x) as [k| | | |]; auto.
+  - intros (H1 & H2 & Hs). repeat split; try assumption. lia.
+  - intros Hs. pose proof (N.mul_le_mono_l off (len buf) d Hc). lia.
+Qed.
+
+Lemma prgood_moved {A} v c c1 (x : counted (A * uctx)) : moved c c1 -> prgood v c1 x -> prgood v c x.
+Proof.
+  intros [E H]. unfold prgood. pose proof (N.mul_le_mono_l (uoff c) (uoff c1) v ltac:(lia)) as Hm.
+  assert (L : len (ubuf c1) = len (ubuf c)) by (rewrite E; reflexivity).
+  destruct (fst x) as [r| | | |]; auto.
+  - intros (E2 & Hr & Hs). rewrite L in Hr. repeat split; try lia. rewrite E2. rewrite E. reflexivity.
+  - rewrite L. lia.
+Qed.
+Lemma prgood_align {A} v a c (F : uctx -> counted (A * uctx)) : 1 <= v -> uoff c <= len (ubuf c) ->
+  (forall c1, moved c c1 -> uoff c1 <= len (ubuf c1) -> prgood v c1 (F c1)) ->
+  prgood v c (dos c1 <- lift (u_align a c); F c1).
+Proof.
+  intros Hv Hc HF. pose proof (u_align_moved a c Hc) as G.
+  destruct (u_align a c) as [c1| | | |]; try (exfalso; exact G).
+  - rewrite bind_s_lift_ok. apply (prgood_moved _ _ c1); [exact G|]. apply HF; [exact G|].
+    destruct G as [E H]. rewrite E. cbn [set_off ubuf uoff]. lia.
+  - apply prgood_err0; assumption.
+Qed.
+
+Lemma t_fields_s_good (one : ety -> uctx -> counted (val * uctx)) v : 1 <= v ->
+  forall es, (forall f c, In f es -> uoff c <= len (ubuf c) -> prgood v c (one f c)) ->
+  forall first c acc, uoff c <= len (ubuf c) ->
+    let x := t_fields_s one es first c acc in
+    match fst x with
+    | Ok r => moved c (snd r) /\ uoff c + len es <= uoff (snd r) /\ snd x + v * uoff c <= v * uoff (snd r)
+    | Err => snd x + v * uoff c <= v * len (ubuf c) + v
+    | _ => False
+    end.
+Proof.
+  intros Hv. induction es as [|f r IH]; intros Hone first c acc Hc; cbn [t_fields_s]; cbv zeta.
+  - cbn [lift fst snd]. change (len (@nil ety)) with 0. split; [split; [now destruct c|lia]|lia].
+  - rewrite fst_tick, snd_tick.
+    assert (G0 : match (if first then Ok c else u_align (ealign f) c) with Ok c' => moved c c' | Err => True | _ => False end).
+    { destruct first; [|now apply u_align_moved]. split; [now destruct c|lia]. }
+    destruct (if first then Ok c else u_align (ealign f) c) as [c0| | | |]; try (exfalso; exact G0).
+    2:{ cbn [bind_s lift fst snd]. pose proof (N.mul_le_mono_l _ _ v Hc). lia. }
+    rewrite bind_s_lift_ok.
+    assert (Hc0 : uoff c0 <= len (ubuf c0)) by (destruct G0 as [E ?]; rewrite E; cbn [set_off ubuf uoff]; lia).
+    assert (L0 : len (ubuf c0) = len (ubuf c)) by (destruct G0 as [E ?]; rewrite E; reflexivity).
+    pose proof (N.mul_le_mono_l (uoff c) (uoff c0) v ltac:(destruct G0; lia)) as M0.
+    unfold bind_s. pose proof (Hone f c0 (or_introl eq_refl) Hc0) as G. unfold prgood in G.
+    destruct (one f c0) as [r1 s1]. cbn [fst snd] in *. destruct r1 as [x| | | |]; cbn [fst snd]; try (exfalso; exact G).
+    2:{ rewrite L0 in G. lia. }
+    destruct G as (E & Hr & Hs). destruct x as [a c']. cbn [fst snd] in *.
+    assert (H1 : uoff c' <= len (ubuf c')) by (rewrite E; cbn [set_off ubuf uoff]; lia).
+    specialize (IH (fun f' c'' Hin => Hone f' c'' (or_intror Hin)) false c' (a :: acc) H1). cbv zeta in IH.
+    assert (Lb : len (ubuf c') = len (ubuf c)) by (rewrite E; exact L0).
+    assert (Hm0 : moved c0 c') by (split; [exact E|lia]).
+    destruct (t_fields_s one r false c' (a :: acc)) as [r2 s2]. cbn [fst snd] in *. rewrite Lb in IH. rewrite len_cons.
+    destruct r2 as [y| | | |]; try exact IH; [|lia].
+    destruct IH as (Hm & Hl & Hs2). split; [eapply moved_trans; [exact G0|]; eapply moved_trans; eassumption|].
+    destruct G0 as [_ G0]. lia.
+Qed.
+
+(* arrays and dicts behind the aligned length field: header, element loop *)
+Lemma coll_good {A} be a v c0 (one : uctx -> counted (A * uctx)) (mk : list A -> val) : 1 <= v ->
+  uoff c0 <= len (ubuf c0) -> (forall c', uoff c' <= len (ubuf c') -> prgood v c' (one c')) ->
+  prgood (v + 1) c0 (dos h <- lift (u_header be a c0);
+                     dos vs <- sub_loop_s one (S (N.to_nat (fst h))) (fst (snd h)) [];
+                     lift (Ok (mk vs, snd (snd h)))).
+Proof.
+  intros Hv Hc0 Hone. pose proof (u_header_good be a c0 Hc0) as G.
+  destruct (u_header be a c0) as [[n [s c3]]| | | |]; try (exfalso; exact G); [|apply prgood_err0; [lia|assumption]].
+  rewrite bind_s_lift_ok. cbn [fst snd]. destruct G as (o & Es & Ec3 & Ho & Hon).
+  assert (Ls : len (ubuf s) = o + n) by (rewrite Es; cbn [ubuf]; apply len_firstnN_le; lia).
+  assert (Eo : uoff s = o) by (rewrite Es; reflexivity).
+  pose proof (sub_loop_s_good (fun _ => True) one v (fun _ _ _ => I) (fun c' H _ => Hone c' H) (S (N.to_nat n)) s []
+                ltac:(rewrite Ls, Eo; lia) I ltac:(rewrite Ls, Eo; lia)) as G2. cbv zeta in G2.
+  unfold bind_s. destruct (sub_loop_s one _ s []) as [r2 s2]. cbn [fst snd] in G2 |- *. rewrite Ls, Eo in G2. unfold prgood.
+  destruct r2 as [vs| | | |]; cbn [fst snd lift]; try exact G2.
+  - rewrite Ec3. cbn [set_off uoff]. split; [reflexivity|]. split; [lia|].
+    pose proof (N.mul_le_mono_l (uoff c0 + 4 + n) (o + n) (v + 1) ltac:(lia)). nia.
+  - pose proof (N.mul_le_mono_l (uoff c0 + n) (len (ubuf c0)) (v + 1) ltac:(lia)). nia.
+Qed.
+
+(* the variant arm behind the signature and the alignment: validation (any counted result [X] that is good at weight
+   129), sub-context, signature comparison, decoding of the content *)
+Lemma var_arm_good be vf x t' c c1 a :
+  (forall s, uoff s <= len (ubuf s) -> pgood a s (unmarshal_ts vf be x s)) ->
+  1 <= a -> c1 = set_off c (uoff c1) -> uoff c + 2 <= uoff c1 -> uoff c1 <= len (ubuf c) -> udepth c1 < MAX_DEPTH ->
+  forall X : counted N, sgood 129 (uoff c1) (ubuf c1) X ->
+  prgood (a + 129) c
+    (dos n <- X;
+     dos s <- lift (u_sub n {| ubuf := ubuf c1; uoff := uoff c1; unfds := unfds c1; udepth := udepth c1 + 1 |});
+     if ty_eqb t' (erase x) then
+       dos v <- unmarshal_ts vf be x (fst s);
+       lift (Ok (VVariant t' (fst v), u_leave (snd s)))
+     else lift Err).
+Proof.
+  intros IH Ha E1 Ho1 Ho2 Hd1 X Gv. unfold sgood in Gv.
+  assert (L2 : len (ubuf c1) = len (ubuf c)) by (rewrite E1; reflexivity).
+  assert (Hc : uoff c <= len (ubuf c)) by lia.
+  destruct X as [rv sv]. cbn [fst snd] in Gv.
+  destruct rv as [n| | | |]; try (exfalso; exact Gv).
+  2:{ unfold bind_s, prgood. cbn [fst snd]. rewrite L2 in Gv.
+      pose proof (N.mul_le_mono_l (uoff c) (len (ubuf c)) a Hc). lia. }
+  destruct Gv as (Hn1 & Hn2 & Hsv). rewrite bind_s_ok. rewrite L2 in Hn2.
+  unfold u_sub, remainder_len. cbn [ubuf uoff unfds udepth].
+  destruct (N.ltb_spec (len (ubuf c1) - uoff c1) n) as [Hlt|_]; [rewrite L2 in Hlt; lia|].
+  rewrite bind_s_lift_ok. cbn [fst snd].
+  pose proof (N.mul_le_mono_l (uoff c + n) (len (ubuf c)) (a + 129) ltac:(lia)) as M1.
+  destruct (ty_eqb t' (erase x)).
+  2:{ unfold prgood. cbn [fst snd lift]. nia. }
+  set (s := {| ubuf := firstnN (uoff c1 + n) (ubuf c1); uoff := uoff c1; unfds := unfds c1; udepth := udepth c1 + 1 |}).
+  assert (Ls : len (ubuf s) = uoff c1 + n) by (unfold s; cbn [ubuf]; rewrite len_firstnN_le; lia).
+  assert (Hs : uoff s <= len (ubuf s)) by (rewrite Ls; unfold s; cbn [uoff]; lia).
+  pose proof (IH s Hs) as Gy. unfold pgood in Gy. rewrite Ls in Gy.
+  unfold bind_s. destruct (unmarshal_ts vf be x s) as [ry sy]. cbn [fst snd] in Gy |- *. unfold prgood.
+  change (uoff s) with (uoff c1) in Gy.
+  destruct ry as [y| | | |]; cbn [fst snd lift]; try exact Gy.
+  - destruct Gy as (_ & Hy & Hsy).
+    assert (Eu : u_leave (set_off {| ubuf := ubuf c1; uoff := uoff c1; unfds := unfds c1; udepth := udepth c1 + 1 |} (uoff c1 + n))
+                 = set_off c (uoff c1 + n)).
+    { rewrite E1. unfold u_leave, set_off. cbn [ubuf uoff unfds udepth]. f_equal. lia. }
+    rewrite Eu. cbn [set_off uoff]. split; [reflexivity|]. split; [lia|].
+    pose proof (N.mul_le_mono_l (uoff (snd y)) (uoff c1 + n) a ltac:(lia)). nia.
+  - nia.
+Qed.
+
+Ltac terr := unfold bind_s; cbn [fst snd lift]; apply prgood_err0; [lia|assumption].
+
+Theorem unmarshal_ts_good be : forall vf e c,
+  ewf e = true -> uoff c <= len (ubuf c) -> (evars e < vf)%nat -> pgood (tweight e) c (unmarshal_ts vf be e c).
+Proof.
+  induction vf as [|vf IHvf]; [intros; lia|].
+  induction e as [b|x IHx|es IHes|kt v IHv|x _] using ety_ind'; intros c Hwf Hc Hvf.
+  - rewrite unmarshal_ts_base_eq. apply pgood_tick, prgood_leaf; try assumption; [cbn [tweight]; lia|]. now apply u_base_good.
+  - destruct (valid_slice be (erase x)) eqn:Evs.
+    + rewrite (unmarshal_ts_array_fast_eq _ _ _ _ Evs). apply pgood_tick, prgood_leaf; try assumption; [apply tweight_pos|].
+      now apply unmarshal_t_good.
+    + rewrite (unmarshal_ts_array_slow_eq _ _ _ _ Evs). apply pgood_tick. cbn [ewf evars tweight] in *.
+      pose proof (tweight_pos x) as Ha. replace (tweight x + 2) with (tweight x + 1 + 1) by lia.
+      apply prgood_align; [lia|assumption|]. intros c0 Hm0 Hc0.
+      apply coll_good; [lia|assumption|]. intros c' Hc'.
+      apply prgood_align; [lia|assumption|]. intros c1 Hm1 Hc1.
+      apply pgood_prgood; [assumption|]. now apply IHx.
+  - rewrite unmarshal_ts_struct_eq. apply pgood_tick. cbn [ewf tweight] in *. apply andb_prop in Hwf. destruct Hwf as [Hne Hwf].
+    set (m := fold_right (fun x m => N.max (tweight x) m) 0 es).
+    replace (m + 2) with (m + 1 + 1) by lia.
+    apply prgood_align; [lia|assumption|]. intros c0 Hm0 Hc0.
+    rewrite forallb_forall in Hwf. rewrite Forall_forall in IHes.
+    assert (Hone : forall f c', In f es -> uoff c' <= len (ubuf c') -> prgood (m + 1) c' (unmarshal_ts (S vf) be f c')).
+    { intros f c' Hin Hc'. apply pgood_prgood; [assumption|]. apply (pgood_mono (tweight f)); [now apply tweight_in|assumption|].
+      apply IHes; auto. pose proof (evars_in es f Hin). lia. }
+    pose proof (t_fields_s_good (unmarshal_ts (S vf) be) (m + 1) ltac:(lia) es Hone true c0 [] Hc0) as G. cbv zeta in G.
+    unfold bind_s. destruct (t_fields_s _ es true c0 []) as [r2 s2]. cbn [fst snd] in G |- *. unfold prgood.
+    destruct r2 as [r| | | |]; cbn [fst snd lift]; try exact G.
+    + destruct G as ([E Hb] & Hl & Hs). destruct es as [|e0 es']; [discriminate|]. rewrite len_cons in Hl.
+      split; [exact E|]. split; [lia|]. nia.
+    + nia.
+  - rewrite unmarshal_ts_dict_eq'. apply pgood_tick. cbn [ewf evars tweight] in *.
+    pose proof (tweight_pos v) as Ha. set (a := tweight v) in *. replace (a + 2) with (a + 1 + 1) by lia.
+    apply prgood_align; [lia|assumption|]. intros c0 Hm0 Hc0.
+    apply coll_good; [lia|assumption|]. intros c' Hc'.
+    apply prgood_align; [lia|assumption|]. intros c1 Hm1 Hc1.
+    pose proof (u_base_good be kt c1 Hc1) as Gk. unfold bind_s at 1. rewrite fst_tick, snd_tick, fst_lift, snd_lift.
+    destruct (u_base be kt c1) as [kr| | | |]; cbn [good] in Gk; try (exfalso; exact Gk).
+    2:{ unfold prgood. cbn [fst snd]. pose proof (N.mul_le_mono_l _ _ a Hc1). nia. }
+    destruct Gk as [E2 H2].
+    assert (Hc2 : uoff (snd kr) <= len (ubuf (snd kr))) by (rewrite E2; cbn [set_off ubuf uoff]; lia).
+    assert (Hmk : moved c1 (snd kr)) by (split; [exact E2|lia]).
+    assert (L2 : len (ubuf (snd kr)) = len (ubuf c1)) by (rewrite E2; reflexivity).
+    pose proof (u_align_moved (ealign v) (snd kr) Hc2) as G3.
+    destruct (u_align (ealign v) (snd kr)) as [c2| | | |]; try (exfalso; exact G3).
+    2:{ cbn [bind_s lift fst snd]. unfold prgood. cbn [fst snd]. pose proof (N.mul_le_mono_l _ _ a Hc1). nia. }
+    rewrite bind_s_lift_ok.
+    pose proof (moved_trans _ _ _ Hmk G3) as [E3 H3]. destruct G3 as [_ H3'].
+    assert (Hc3 : uoff c2 <= len (ubuf c2)) by (rewrite E3; cbn [set_off ubuf uoff]; lia).
+    assert (L3 : len (ubuf c2) = len (ubuf c1)) by (rewrite E3; reflexivity).
+    pose proof (IHv c2 Hwf Hc3 Hvf) as Gv. fold a in Gv. unfold pgood in Gv.
+    unfold bind_s. destruct (unmarshal_ts (S vf) be v c2) as [r s']. cbn [fst snd] in Gv |- *. unfold prgood.
+    destruct r as [vr| | | |]; cbn [fst snd lift]; try exact Gv.
+    + destruct Gv as (E4 & H4 & Hs4). rewrite L3 in H4.
+      split; [rewrite E4, E3; reflexivity|]. split; [lia|].
+      pose proof (N.mul_le_mono_l (uoff c1 + 1) (uoff c2) a ltac:(lia)). nia.
+    + rewrite L3 in Gv. pose proof (N.mul_le_mono_l (uoff c1 + 1) (uoff c2) a ltac:(lia)). nia.
+  - rewrite unmarshal_ts_var_eq. apply pgood_tick. cbn [ewf evars tweight] in *.
+    pose proof (tweight_pos x) as Ha. set (a := tweight x) in *.
+    pose proof (u_read_sig_moved c Hc) as G. destruct (u_read_sig c) as [r| | | |]; try (exfalso; exact G); [|terr].
+    rewrite bind_s_lift_ok. destruct G as [[E1 H1] H1'].
+    destruct (parse_description (fst r)) as [tys| | | |] eqn:Ep; try terr.
+    destruct tys as [|t' [|]]; try terr. destruct (parse_single _ _ Ep) as [_ Htok].
+    assert (Hc1 : uoff (snd r) <= len (ubuf (snd r))) by (rewrite E1; cbn [set_off ubuf uoff]; lia).
+    pose proof (u_align_moved (align t') (snd r) Hc1) as G2.
+    destruct (u_align (align t') (snd r)) as [c1| | | |]; try (exfalso; exact G2); [|terr].
+    rewrite bind_s_lift_ok. destruct G2 as [E2 H2].
+    assert (Hc2 : uoff c1 <= len (ubuf c1)) by (rewrite E2; cbn [set_off ubuf uoff]; lia).
+    assert (L2 : len (ubuf c1) = len (ubuf c)) by (rewrite E2, E1; reflexivity).
+    unfold u_enter. destruct (N.leb_spec MAX_DEPTH (udepth c1)) as [|Hd1]; [terr|].
+    rewrite bind_s_lift_ok.
+    assert (E12 : c1 = set_off c (uoff c1)) by (rewrite E2, E1; reflexivity).
+    assert (Ho1 : uoff c + 2 <= uoff c1) by (rewrite E1 in H2; cbn [set_off uoff] in H2; lia).
+    apply (var_arm_good be vf x t' c c1 a); try assumption; try lia.
+    + intros s Hs. apply IHvf; [assumption|assumption|lia].
+    + apply (sgood_mono (step_weight (udepth c1 + 1))); [apply step_weight_le|assumption|].
+      exact (validate_s_good be 66 t' (udepth c1 + 1) (uoff c1) (ubuf c1) (type_ok_wf _ Htok) Hc2 ltac:(lia) ltac:(cbn; lia)).
+Qed.
+
+(** the bound in closed form, for every outcome *)
+Corollary unmarshal_ts_bound be vf e c : ewf e = true -> uoff c <= len (ubuf c) -> (evars e < vf)%nat ->
+  let x := unmarshal_ts vf be e c in
+  snd x <= tweight e * (len (ubuf c) - uoff c) + tweight e
+  /\ (forall v c', fst x = Ok (v, c') -> snd x <= tweight e * (uoff c' - uoff c) /\ uoff c < uoff c' <= len (ubuf c)).
+Proof.
+  intros Hw Ho H1 x. pose proof (unmarshal_ts_good be vf e c Hw Ho H1) as G. fold x in G. unfold pgood in G.
+  set (w := tweight e) in *.
+  assert (E : w * len (ubuf c) = w * (len (ubuf c) - uoff c) + w * uoff c) by nia.
+  split.
+  - destruct (fst x) as [r| | | |]; try (exfalso; exact G).
+    + destruct G as (_ & Hk & Hs). pose proof (N.mul_le_mono_l (uoff (snd r)) (len (ubuf c)) w ltac:(lia)). lia.
+    + lia.
+  - intros v c' En. rewrite En in G. cbn [snd] in G. destruct G as (_ & Hk & Hs). split; [|exact Hk].
+    assert (E' : w * uoff c' = w * (uoff c' - uoff c) + w * uoff c) by nia. lia.
+Qed.
+
+(** the weight in terms of the two measures of the Rust type that the other theorems use: container nesting [edepth]
+    (a Variant<..> level counts as one) and Variant<..> nesting [evars] *)
+Lemma tweight_le e : tweight e <= 2 * edepth e + 127 * N.of_nat (evars e) + 1.
+Proof.
+  induction e as [b|x IH|es IH|k v IH|x IH] using ety_ind'; cbn [tweight edepth evars]; try lia.
+  set (mw := fold_right (fun x m => N.max (tweight x) m) 0 es).
+  set (md := fold_right (fun x m => N.max (edepth x) m) 0 es).
+  set (mv := fold_right (fun x m => Nat.max (evars x) m) 0%nat es).
+  assert (H : mw <= 2 * md + 127 * N.of_nat mv + 1).
+  { unfold mw, md, mv. induction IH as [|y l Hy Hl IHl]; cbn [fold_right]; [lia|]. rewrite Nat2N.inj_max. cbv zeta in IHl. lia. }
+  lia.
+Qed.
+
+(** the decoder at the fuel the operations use (66), hypotheses of [unmarshal_t_total_66] *)
+Theorem unmarshal_ts_66_bound be e c : ewf e = true -> uoff c <= len (ubuf c) -> (evars e <= 65)%nat ->
+  snd (unmarshal_ts 66 be e c) <= tweight e * (len (ubuf c) - uoff c) + tweight e
+  /\ (forall v c', fst (unmarshal_ts 66 be e c) = Ok (v, c') ->
+        snd (unmarshal_ts 66 be e c) <= tweight e * (uoff c' - uoff c) /\ uoff c < uoff c' <= len (ubuf c))
+  /\ tweight e <= 2 * edepth e + 127 * N.of_nat (evars e) + 1 <= 2 * edepth e + 8256.
+Proof.
+  intros Hw Ho He. destruct (unmarshal_ts_bound be 66 e c Hw Ho ltac:(lia)) as [B1 B2]. cbv zeta in B1, B2.
+  split; [exact B1|]. split; [exact B2|]. pose proof (tweight_le e). lia.
+Qed.
